@@ -153,8 +153,14 @@ def _remove_node_and_replace_values(
     # Update graph/function outputs if the node generates output
     if any(remove_value.is_graph_output() for remove_value in remove_values):
         replacement_mapping = dict(zip(remove_values, new_values))
+        # A value may be listed as a graph output more than once: every occurrence
+        # must be replaced by the same value, otherwise the second occurrence would
+        # get an Identity output with the very same name (breaking SSA).
+        replaced: dict[ir.Value, ir.Value] = {}
         for idx, graph_output in enumerate(graph.outputs):
-            if graph_output in replacement_mapping:
+            if graph_output in replaced:
+                graph.outputs[idx] = replaced[graph_output]
+            elif graph_output in replacement_mapping:
                 new_value = replacement_mapping[graph_output]
                 if new_value.is_graph_output() or new_value.is_graph_input():
                     # If the new value is also a graph input/output, we need to
@@ -173,6 +179,7 @@ def _remove_node_and_replace_values(
                     )
                     # reuse the name of the graph output
                     graph.outputs[idx] = identity_node.outputs[0]
+                    replaced[graph_output] = identity_node.outputs[0]
                     graph.insert_before(
                         remove_node,
                         identity_node,
@@ -182,6 +189,7 @@ def _remove_node_and_replace_values(
                     # update it to use old_value name.
                     new_value.name = graph_output.name
                     graph.outputs[idx] = new_value
+                    replaced[graph_output] = new_value
 
     # Reconnect the users of the deleted values to use the new values
     ir.convenience.replace_all_uses_with(remove_values, new_values)
